@@ -520,11 +520,11 @@ same_bits(const std::vector<float>& a, const std::vector<float>& b)
 
 struct SubRef // reference quantities of one subset (or of the full data)
 {
-  std::vector<double> g, g_band, gp, gp_band, s, s_band, s_alt, H, H_band, H_alt, H_alt_band, H_extra, H_alt_extra;
+  std::vector<double> g, g_band, gp, gp_band, s, s_band, s_alt, H, H_band, H_alt, H_alt_band, H_extra, H_alt_extra, H_tof0, H_tof0_band, s_tof0;
   double L1 = 0, L1_band = 0, L2 = 0, L2_band = 0;
   void init(int n)
   {
-    for (auto* v : { &g, &g_band, &gp, &gp_band, &s, &s_band, &s_alt, &H, &H_band, &H_alt, &H_alt_band, &H_extra, &H_alt_extra })
+    for (auto* v : { &g, &g_band, &gp, &gp_band, &s, &s_band, &s_alt, &H, &H_band, &H_alt, &H_alt_band, &H_extra, &H_alt_extra, &H_tof0, &H_tof0_band, &s_tof0 })
       v->assign(n, 0.);
   }
   void add(const SubRef& o)
@@ -535,7 +535,7 @@ struct SubRef // reference quantities of one subset (or of the full data)
     };
     acc(g, o.g), acc(g_band, o.g_band), acc(gp, o.gp), acc(gp_band, o.gp_band), acc(s, o.s), acc(s_band, o.s_band);
     acc(s_alt, o.s_alt), acc(H, o.H), acc(H_band, o.H_band), acc(H_alt, o.H_alt), acc(H_alt_band, o.H_alt_band);
-    acc(H_extra, o.H_extra), acc(H_alt_extra, o.H_alt_extra);
+    acc(H_extra, o.H_extra), acc(H_alt_extra, o.H_alt_extra), acc(H_tof0, o.H_tof0), acc(H_tof0_band, o.H_tof0_band), acc(s_tof0, o.s_tof0);
     L1 += o.L1, L1_band += o.L1_band, L2 += o.L2, L2_band += o.L2_band;
   }
 };
@@ -576,7 +576,12 @@ run_case(Ctx& ctx)
   c.S = c.use_subset_sens ? static_cast<int>(rng.range(1, nviews)) : rng.pick(vg::divisors(nviews));
   if (rng.coin(0.15))
     c.S = 1;
+  // VERIF_MODE=orders (memcheck stage): only the order matrix and the quantities of its subset
+  const char* mode_env = std::getenv("VERIF_MODE");
+  const bool orders_only = mode_env && std::string(mode_env) == "orders";
+  const int s_order = static_cast<int>(rng.range(0, c.S - 1)), s_pen = static_cast<int>(rng.range(0, c.S - 1));
   ctx.desc.add("cfg", c.desc());
+  ctx.desc.add("order_subset", s_order);
   ctx.heartbeat("generate");
 
   w.exam.reset(new ExamInfo(ImagingModality::PT));
@@ -823,6 +828,13 @@ run_case(Ctx& ctx)
           r.H_alt_band[j] += p * h_alt;
           r.H_extra[j] += p * hx; // guard zone: the term may legitimately have been truncated to 0
           r.H_alt_extra[j] += p * hx_alt;
+          if (br.tof == 0)
+            {
+              // diagnosis only: every TOF position processed with the data/model of timing position 0
+              r.s_tof0[j] += w.gT.ntof * p * n;
+              r.H_tof0[j] -= w.gT.ntof * p * h_alt;
+              r.H_tof0_band[j] += w.gT.ntof * p * (h_alt + hx_alt / (8 * vf::EPS32));
+            }
         }
     }
   std::vector<std::vector<int>> cnt0(c.S, std::vector<int>(w.nvox, 0));
@@ -860,6 +872,7 @@ run_case(Ctx& ctx)
         r.s_band[j] = vf::band32(8 + (w.sens_nontof ? cnt0[s][j] : m), r.s_band[j]);
         r.H_band[j] = vf::band32(3 * NR + m, r.H_band[j]) + 1.001 * r.H_extra[j];
         r.H_alt_band[j] = vf::band32(3 * NR + m, r.H_alt_band[j]) + 1.001 * r.H_alt_extra[j];
+        r.H_tof0_band[j] = vf::band32(3 * NR + m, r.H_tof0_band[j]);
       }
   SubRef full;
   full.init(w.nvox);
@@ -916,6 +929,59 @@ run_case(Ctx& ctx)
       throw vf::Skip(std::string("set_up rejected: ") + e.what());
     }
   ObjFn& obj = *mainh.obj;
+  // the case exercises the property from here on (rule: >= 50 non-zeros in the explicit matrix and non-zero counts in bins
+  // that take part)
+  ctx.nontrivial = nnzP >= 50 && active_nonzero > 0;
+  std::set<std::string> reported; // defect-specific keys are reported once per case and the case continues
+  auto specific = [&](const std::string& key, const std::string& wit) {
+    if (reported.insert(key).second)
+      ctx.violation(key, wit + " [" + std::string(c.tof ? (w.tofsens ? "tof+tofsens" : "tof") : "nontof") + "]");
+  };
+
+  // sensitivity comparison with attribution of the two sensitivity defects found on the unchanged tree (final report):
+  // returns 0 = agrees, 1 = disagrees in the way of an attributed defect (reported once, case continues), 2 = disagrees
+  const bool tof_mult_case = w.tofsens && c.zero_ends && c.norm_kind == 0;
+  bool sens_defect_seen = false;
+  auto check_sens = [&](const std::vector<float>& got, const std::vector<double>& sref, const std::vector<double>& sband,
+                        const std::vector<double>& salt, const std::vector<double>& stof0, double scale, bool try_alt,
+                        const std::string& what, int& jbad) -> int {
+    jbad = first_bad(got, sref, sband);
+    if (jbad < 0)
+      return 0;
+    const int j = jbad;
+    std::vector<double> alt(w.nvox), altband(w.nvox);
+    if (try_alt)
+      {
+        for (int v = 0; v < w.nvox; ++v)
+          alt[v] = salt[v] * scale, altband[v] = vf::band32(8 + w.g0.nbins, std::fabs(alt[v]));
+        if (first_bad(got, alt, altband) < 0)
+          {
+            sens_defect_seen = true;
+            specific("tof-data-nontof-sensitivity:subset-sensitivity-follows-nontof-symmetry-subsets-not-the-data-subsets",
+                     what
+                         + vf::fmt(" %s: STIR %.9g; F0' eff over the views of this subset of the TOF data = %.9g (band %.3g); STIR "
+                                   "equals the sum over the view groups that the non-TOF symmetries assign to the subset (%.9g)",
+                                   vox_name(w, j).c_str(), got[j], sref[j], sband[j], alt[j]));
+            return 1;
+          }
+      }
+    if (tof_mult_case)
+      {
+        for (int v = 0; v < w.nvox; ++v)
+          alt[v] = stof0[v] * scale, altband[v] = vf::band32(8 + w.gT.nbins, std::fabs(alt[v]));
+        if (first_bad(got, alt, altband) < 0)
+          {
+            sens_defect_seen = true;
+            specific("tof-sensitivity:trivial-normalisation+zero_seg0_end_planes:every-timing-position-backprojected-as-position-0",
+                     what
+                         + vf::fmt(" %s: STIR %.9g; F' eff over all %d TOF positions = %.9g (band %.3g); STIR equals %d x the back "
+                                   "projection of timing position 0 alone (%.9g)",
+                                   vox_name(w, j).c_str(), got[j], w.gT.ntof, sref[j], sband[j], w.gT.ntof, alt[j]));
+            return 1;
+          }
+      }
+    return 2;
+  };
 
   const shared_ptr<Target> L1 = w.img_from(w.lam1), L2 = w.img_from(w.lam2), V = w.img_from(w.vin);
   const std::string tag = std::string(c.tof ? (w.tofsens ? "tof+tofsens" : "tof") : "nontof");
@@ -927,6 +993,8 @@ run_case(Ctx& ctx)
   std::vector<double> V1(c.S), V2(c.S);
   for (int s = 0; s < c.S; ++s)
     {
+      if (orders_only && s != s_order)
+        continue;
       const SubRef& r = ref[s];
       shared_ptr<Target> g(w.image->get_empty_copy());
       std::fill(g->begin_all(), g->end_all(), 7.f); // must be overwritten
@@ -950,29 +1018,23 @@ run_case(Ctx& ctx)
       // sensitivity
       SS[s] = World::vec_from(obj.get_subset_sensitivity(s));
       {
-        std::vector<double> sref(w.nvox), sband(w.nvox), salt(w.nvox);
+        std::vector<double> sref(w.nvox), sband(w.nvox);
         for (int v = 0; v < w.nvox; ++v)
           {
             sref[v] = c.use_subset_sens ? r.s[v] : full.s[v] / c.S;
             sband[v] = c.use_subset_sens ? r.s_band[v] : full.s_band[v] / c.S + 4 * vf::EPS32 * full.s[v] / c.S;
-            salt[v] = r.s_alt[v];
           }
-        j = first_bad(SS[s], sref, sband);
-        if (j >= 0)
-          {
-            if (w.sens_nontof && c.use_subset_sens && first_bad(SS[s], salt, sband) < 0)
-              return fail("tof-data-nontof-sensitivity:subset-sensitivity-follows-nontof-symmetry-subsets-not-the-data-subsets",
-                          vf::fmt("subset %d/%d %s: subset sensitivity %.9g; F0' eff over the views of this subset of the TOF data = %.9g "
-                                  "(band %.3g); it equals the sum over the view groups that the non-TOF symmetries assign to the "
-                                  "subset (%.9g)",
-                                  s, c.S, vox_name(w, j).c_str(), SS[s][j], sref[j], sband[j], salt[j]));
-            return fail(std::string("subset-sensitivity-differs-from-reference") + (c.supplied ? ":supplied" : ""),
-                        vf::fmt("subset %d/%d %s: STIR %.9g, F' eff = %.9g, band %.3g", s, c.S, vox_name(w, j).c_str(), SS[s][j], sref[j],
-                                sband[j]));
-          }
-        ctx.count("sensitivity_voxels_checked", w.nvox);
+        const int rc = check_sens(SS[s], sref, sband, r.s_alt, c.use_subset_sens ? r.s_tof0 : full.s_tof0,
+                                  c.use_subset_sens ? 1. : 1. / c.S, w.sens_nontof && c.use_subset_sens,
+                                  vf::fmt("subset sensitivity %d/%d", s, c.S), j);
+        if (rc == 2)
+          return fail(std::string("subset-sensitivity-differs-from-reference") + (c.supplied ? ":supplied" : ""),
+                      vf::fmt("subset %d/%d %s: STIR %.9g, F' eff = %.9g, band %.3g", s, c.S, vox_name(w, j).c_str(), SS[s][j], sref[j],
+                              sband[j]));
+        if (rc == 0)
+          ctx.count("sensitivity_voxels_checked", w.nvox);
         // 'gradient plus sensitivity' exceeds the gradient by exactly the sensitivity
-        if (c.use_subset_sens && !w.sens_nontof)
+        if (c.use_subset_sens && !w.sens_nontof && !sens_defect_seen)
           for (int v = 0; v < w.nvox; ++v)
             {
               const double diff = static_cast<double>(GP[s][v]) - static_cast<double>(G[s][v]);
@@ -1021,21 +1083,35 @@ run_case(Ctx& ctx)
         j = first_bad(HH[s], href, hband);
         if (j >= 0)
           {
+            std::vector<double> ht0(w.nvox), ht0band(w.nvox);
+            for (int v = 0; v < w.nvox; ++v)
+              {
+                ht0[v] = w.out0[v] + r.H_tof0[v];
+                ht0band[v] = r.H_tof0_band[v] + 4 * vf::EPS32 * std::fabs(w.out0[v]);
+              }
             if (c.zero_ends && first_bad(HH[s], halt, haltband) < 0)
-              return fail("hessian-times-input:zero_seg0_end_planes-ignored",
-                          vf::fmt("subset %d/%d %s: out0 + H v: STIR %.9g; with the end planes of segment 0 removed (as value and "
-                                  "gradient do) %.9g band %.3g; STIR equals the product that keeps them (%.9g)",
-                                  s, c.S, vox_name(w, j).c_str(), HH[s][j], href[j], hband[j], halt[j]));
-            return fail("hessian-times-input-differs-from-reference",
-                        vf::fmt("subset %d/%d %s: out0 + H v: STIR %.9g, reference %.9g, band %.3g (out0 %.9g)", s, c.S,
-                                vox_name(w, j).c_str(), HH[s][j], href[j], hband[j], w.out0[j]));
+              specific("hessian-times-input:zero_seg0_end_planes-ignored",
+                       vf::fmt("subset %d/%d %s: out0 + H v: STIR %.9g; with the end planes of segment 0 removed (as value and "
+                               "gradient do) %.9g band %.3g; STIR equals the product that keeps them (%.9g)",
+                               s, c.S, vox_name(w, j).c_str(), HH[s][j], href[j], hband[j], halt[j]));
+            else if (c.tof && first_bad(HH[s], ht0, ht0band) < 0)
+              specific("hessian-times-input:tof-data-every-timing-position-processed-as-position-0",
+                       vf::fmt("subset %d/%d %s: out0 + H v: STIR %.9g; -F'[y Fv/(F lambda+a)^2] over all %d TOF positions %.9g band "
+                               "%.3g; STIR equals %d x the contribution of timing position 0 alone (%.9g)",
+                               s, c.S, vox_name(w, j).c_str(), HH[s][j], href[j], hband[j], w.gT.ntof, w.gT.ntof, ht0[j]));
+            else
+              return fail("hessian-times-input-differs-from-reference",
+                          vf::fmt("subset %d/%d %s: out0 + H v: STIR %.9g, reference %.9g, band %.3g (out0 %.9g)", s, c.S,
+                                  vox_name(w, j).c_str(), HH[s][j], href[j], hband[j], w.out0[j]));
           }
-        ctx.count("hessian_checks", w.nvox);
+        else
+          ctx.count("hessian_checks", w.nvox);
       }
     }
 
   // ---- sum over subsets = full-data counterpart (public full-data API of the same object, and the reference)
   ctx.heartbeat("full-quantities");
+  if (!orders_only)
   {
     shared_ptr<Target> g(w.image->get_empty_copy());
     obj.compute_gradient_without_penalty(*g, *L1);
@@ -1069,16 +1145,15 @@ run_case(Ctx& ctx)
                   vf::fmt("full %.12g, sum over %d subsets %.12g, reference %.12g band %.3g", vfull, c.S, vs, full.L1, full.L1_band));
     ctx.count("value_checks", 2);
     const std::vector<float> sf = World::vec_from(obj.get_sensitivity());
-    j = first_bad(sf, full.s, full.s_band);
-    if (j >= 0)
-      {
-        // specific: TOF data, TOF sensitivities, trivial normalisation, zeroed end planes (see final report)
-        const bool tof_mult_case = w.tofsens && c.zero_ends;
-        return fail(tof_mult_case ? "total-sensitivity-differs-from-reference:tofsens+zero_seg0_end_planes"
-                                  : "total-sensitivity-differs-from-reference",
+    {
+      // the total does not depend on how the views are grouped into subsets: no alternative for the non-TOF grouping
+      const int rc = check_sens(sf, full.s, full.s_band, full.s, full.s_tof0, 1., false, "total sensitivity", j);
+      if (rc == 2)
+        return fail("total-sensitivity-differs-from-reference",
                     vf::fmt("%s: STIR %.9g, F' eff = %.9g, band %.3g", vox_name(w, j).c_str(), sf[j], full.s[j], full.s_band[j]));
-      }
-    ctx.count("sensitivity_voxels_checked", w.nvox);
+      if (rc == 0)
+        ctx.count("sensitivity_voxels_checked", w.nvox);
+    }
     shared_ptr<Target> out = w.img_from(w.out0);
     if (obj.accumulate_Hessian_times_input_without_penalty(*out, *L1, *V) != Succeeded::yes)
       return fail("hessian-times-input-returned-no", "full data");
@@ -1100,7 +1175,7 @@ run_case(Ctx& ctx)
   }
 
   // ---- single-subset object: the full-data counterpart proper
-  if (c.S > 1)
+  if (c.S > 1 && !orders_only)
     {
       ctx.heartbeat("one-subset-object");
       Holder one;
@@ -1129,17 +1204,15 @@ run_case(Ctx& ctx)
           if (!vf::close_enough(v1, full.L1, full.L1_band))
             return fail("one-subset-value-differs-from-sum-over-subsets", vf::fmt("1 subset %.12g, reference %.12g", v1, full.L1));
           const std::vector<float> s1 = World::vec_from(one.obj->get_subset_sensitivity(0));
-          j = first_bad(s1, full.s, full.s_band);
-          if (j >= 0)
-            return fail(w.tofsens && c.zero_ends ? "total-sensitivity-differs-from-reference:tofsens+zero_seg0_end_planes"
-                                                 : "one-subset-sensitivity-differs-from-sum-over-subsets",
+          if (check_sens(s1, full.s, full.s_band, full.s, full.s_tof0, 1., false, "sensitivity of the one-subset object", j) == 2)
+            return fail("one-subset-sensitivity-differs-from-sum-over-subsets",
                         vf::fmt("%s: 1 subset %.9g, reference %.9g band %.3g", vox_name(w, j).c_str(), s1[j], full.s[j], full.s_band[j]));
           ctx.count("one_subset_objects_checked");
         }
     }
 
   // ---- penalised = unpenalised - prior share (the prior itself is C09's business: a second, identical prior is the oracle)
-  if (c.prior)
+  if (c.prior && !orders_only)
     {
       ctx.heartbeat("penalised");
       QuadraticPrior<float> pr(false, c.beta);
@@ -1153,7 +1226,7 @@ run_case(Ctx& ctx)
       shared_ptr<Target> ph(w.image->get_empty_copy());
       pr.accumulate_Hessian_times_input(*ph, *L1, *V);
       const std::vector<float> phv = World::vec_from(*ph);
-      const int s = static_cast<int>(rng.range(0, c.S - 1));
+      const int s = s_pen;
       // value
       const double pv = obj.compute_objective_function(*L1, s);
       const double pv_ref = V1[s] - pval / c.S;
@@ -1207,21 +1280,23 @@ run_case(Ctx& ctx)
             }
           const int v = bad;
           if (matches_output)
-            return fail("penalised-hessian-times-input:prior-hessian-applied-to-output-instead-of-input",
+            specific("penalised-hessian-times-input:prior-hessian-applied-to-output-instead-of-input",
                         vf::fmt("subset %d/%d %s: STIR %.9g; (out0 + H v) %.9g - (H_prior v) %.9g / %d = %.9g; STIR equals (out0 + H v) - "
                                 "H_prior(out0 + H v)/%d",
                                 s, c.S, vox_name(w, v).c_str(), hv[v], HH[s][v], phv[v], c.S,
                                 static_cast<double>(HH[s][v]) - static_cast<double>(phv[v]) / c.S, c.S));
-          return fail("penalised-hessian-times-input-is-not-unpenalised-minus-prior-share",
+          else
+            return fail("penalised-hessian-times-input-is-not-unpenalised-minus-prior-share",
                       vf::fmt("subset %d/%d %s: %.9g vs %.9g - %.9g/%d", s, c.S, vox_name(w, v).c_str(), hv[v], HH[s][v], phv[v], c.S));
         }
-      ctx.count("hessian_checks", w.nvox);
+      else
+        ctx.count("hessian_checks", w.nvox);
       ctx.count("penalised_checks", 4);
     }
 
   // ---- order independence: 24 orders of first use on fresh, identically configured objects
   {
-    const int s = static_cast<int>(rng.range(0, c.S - 1));
+    const int s = s_order;
     const SubRef& r = ref[s];
     struct Res
     {
@@ -1249,6 +1324,7 @@ run_case(Ctx& ctx)
             return fail("order-matrix:set_up-fails-on-identically-configured-object", order + ": " + e.what());
           }
         Res res;
+        bool threw = false;
         for (int k = 0; k < 4; ++k)
           {
             try
@@ -1291,13 +1367,21 @@ run_case(Ctx& ctx)
                 const std::string what = e.what();
                 const std::string req(1, names[perm[k]]);
                 if (what.find("setup_distributable_computation not called") != std::string::npos)
-                  return fail(std::string("order-matrix:internal-error-setup_distributable_computation-not-called:first-request-")
-                                  + (k == 0 ? req : std::string("later")) + (c.supplied ? ":supplied-sensitivity" : ":computed-sensitivity"),
-                              vf::fmt("order %s, request %d (%c), subset %d/%d, object storage pre-filled with 0x%02x: %s", order.c_str(),
-                                      k, names[perm[k]], s, c.S, c.alloc == 1 ? 0 : (c.alloc == 2 ? 1 : 0xff), what.c_str()));
+                  {
+                    specific(std::string("order-matrix:internal-error-setup_distributable_computation-not-called:")
+                                 + (perm[k] == 0 ? "value-requested-before-any-gradient" : "request-" + req)
+                                 + (c.supplied ? ":supplied-sensitivity" : ":computed-sensitivity"),
+                             vf::fmt("order %s, request %d (%c), subset %d/%d, object storage %s: %s", order.c_str(), k, names[perm[k]],
+                                     s, c.S, c.alloc == 0 ? "from plain new" : (c.alloc == 1 ? "pre-filled with 0x00" : "pre-filled with 0x01"),
+                                     what.c_str()));
+                    threw = true;
+                    break;
+                  }
                 return fail("order-matrix:request-throws:" + vf::short_what(what), order + " request " + req + ": " + what);
               }
           }
+        if (threw)
+          continue; // attributed above; the remaining orders are still compared with each other
         if (np == 0)
           {
             first = res;
@@ -1309,8 +1393,8 @@ run_case(Ctx& ctx)
               return fail("order-matrix:gradient-differs-from-reference", order);
             if (!c.supplied)
               {
-                const int j = first_bad(res.sens, r.s, r.s_band);
-                if (j >= 0 && !(w.sens_nontof && first_bad(res.sens, r.s_alt, r.s_band) < 0))
+                int j = -1;
+                if (check_sens(res.sens, r.s, r.s_band, r.s_alt, r.s_tof0, 1., w.sens_nontof, "add_subset_sensitivity " + order, j) == 2)
                   return fail("order-matrix:add_subset_sensitivity-differs-from-reference",
                               order + vf::fmt(" %s: %.9g vs %.9g", vox_name(w, j).c_str(), res.sens[j], r.s[j]));
                 if (c.use_subset_sens && !same_bits(res.sens, SS[s]))
@@ -1338,7 +1422,6 @@ run_case(Ctx& ctx)
   }
 
   // ---- evidence
-  ctx.nontrivial = nnzP >= 50 && active_nonzero > 0;
   ctx.count(c.tof ? (w.tofsens ? "cfg_tof_tofsens" : "cfg_tof_nontof_sens") : "cfg_nontof");
   if (c.tof)
     ctx.count("cfg_tof");
